@@ -1,14 +1,19 @@
 import CaoModel.Driver.StackEngine
+import CaoModel.Driver.MapEngine
 open Cao Cao.Driver
 
 structure DState where
   stack : Option (VStack Val) := none
   bstack : Option (BStack Nat) := none
+  hm : HmState := {}
+  ht : HtState := {}
 
 def step (d : DState) (line : String) : DState × String :=
   match line.trimAscii.toString.splitOn " " with
   | "stack" :: args => let (s, o) := stackStep d.stack args; ({ d with stack := s }, o)
   | "bstack" :: args => let (s, o) := bstackStep d.bstack args; ({ d with bstack := s }, o)
+  | "hm" :: args => let (s, o) := hmStep d.hm args; ({ d with hm := s }, o)
+  | "ht" :: args => let (s, o) := htStep d.ht args; ({ d with ht := s }, o)
   | _ => (d, "bad-op")
 
 partial def loop (h : IO.FS.Stream) (out : IO.FS.Stream) (d : DState) : IO Unit := do
